@@ -424,6 +424,35 @@ func c08fields(c Case, env *Env, res *Result) {
 			} else if !sameFloat(got, want) {
 				viol("mismatch:value", fmt.Sprintf("(%s) decoded as %v", hexClip(o.Wire), got))
 			}
+			// the form on the wire, wherever the number stands: the shortest exact one
+			if rv, _, perr := hspec.Parse(o.Wire); perr == nil {
+				var leaf *hspec.Value
+				switch pos {
+				case "f64field", "f32field":
+					for i, fn := range rv.Fields {
+						if fn == pos[:3] && i < len(rv.Elems) {
+							leaf = rv.Elems[i]
+						}
+					}
+				case "f64elem", "f32elem":
+					if len(rv.Elems) == 1 && len(rv.Elems[0].Elems) == 3 {
+						leaf = rv.Elems[0].Elems[1]
+					}
+				case "mapval":
+					if len(rv.Elems) == 2 {
+						leaf = rv.Elems[1]
+					}
+				}
+				if leaf != nil && leaf.Kind == hspec.KDouble && leaf.Ann != nil {
+					res.Count("forms_checked_inside_containers", 1)
+					if enc := o.Wire[leaf.Ann.Off:leaf.Ann.End]; !doubleOK(want, enc) {
+						sw, _ := specDouble(want)
+						viol("form:not-spec", fmt.Sprintf("emitted %x, shortest exact form is %x", enc, sw))
+					}
+				} else {
+					res.Count("form_leaf_not_located", 1)
+				}
+			}
 		}
 	}
 	res.Sample(map[string]interface{}{"kind": "float fields / elements / map values", "seed": c.Seed, "count": c.Count})
